@@ -1,6 +1,6 @@
 """Property -> rules.  The explanation/assumption texts end up in the evidence files."""
 from .rules import dtype, evalnodes, executor, aggregates, eqfaith, compiler_rules as cr
-from .rules import cursor_rules as cu, library_rules as lib, state_rules as st
+from .rules import cursor_rules as cu, library_rules as lib, state_rules as st, grammar_rules as gr
 
 TRUSTED_ABSINT = [
     "Python/library semantics of operators, attributes, methods and whitelisted callables are obtained by applying "
@@ -112,6 +112,25 @@ PROPS = {
                   eqfaith.rule_eqfaith, cr.rule_coalesce, cr.rule_implicitcast],
         'thorough': [],
     },
+    'C06': {
+        'level': 'translation_validation',
+        'explanation': (
+            "Translation validation of the generated parser: bql.ebnf is re-translated with the pinned TatSu code "
+            "generator and the result compared, as syntax trees, with the shipped parser.py method by method, plus the "
+            "keyword set (R-REGEN; programs = rule methods compared): the shipped parser is the translation of the "
+            "published grammar. On the grammar model: the precedence / associativity matrix (parent operator x operand "
+            "position -> child operators admitted without parentheses) is DERIVED from the rules and compared with the "
+            "level table of the property statement (R-PRECMATRIX, 43 cells); rule <-> AST class field agreement "
+            "(R-ASTFIELDS); semantic actions name existing rules and produce the literal's Python type (R-SEMANTICS); no "
+            "earlier terminal alternative of an ordered choice captures a prefix of a later one, by NFA product on the "
+            "rules' regexes (R-SHADOW); clause openers reserved (R-KEYWORDS); literal forms by language membership "
+            "(R-LEXSPEC, thorough). Does not decide the behaviour of TatSu's run-time, hence not the round trip itself."),
+        'assumptions': ["TatSu's code generator (5.7.x, the version range pyproject.toml pins) is deterministic and "
+                        "faithful to its input grammar", "no BQL text is parsed by the check"],
+        'technique': 'translation validation (regenerate and compare syntax trees) + grammar-model analysis',
+        'quick': [gr.rule_regen, gr.rule_precmatrix, gr.rule_astfields, gr.rule_semantics, gr.rule_shadow, gr.rule_keywords],
+        'thorough': [gr.rule_lexspec],
+    },
     'C07': {
         'level': 'other',
         'explanation': (
@@ -138,7 +157,8 @@ PROPS = {
             "single-column guard exists (R-GUARDS) and the IN node is NULL-propagating (R-NULLSTRICT). Does not decide "
             "equality of nested and materialised results in general."),
         'assumptions': TRUSTED_STRUCT,
-        'quick': [st.rule_reentrant, cr.rule_visfilter, eqfaith.rule_eqfaith, cr.rule_guards, evalnodes.rule_nullstrict],
+        'quick': [st.rule_reentrant, cr.rule_visfilter, eqfaith.rule_eqfaith, cr.rule_guards, evalnodes.rule_nullstrict,
+                  st.rule_subq1d],
         'thorough': [],
     },
     'C09': {
@@ -185,7 +205,7 @@ PROPS = {
             "into a fresh per-group zero (R-AGGCLASS). NOT decided (outside static reach): that Inventory.reduce / "
             "add_position / convert.* form a homomorphism - beancount's arithmetic over run-time lots and prices."),
         'assumptions': TRUSTED_STRUCT,
-        'quick': [st.rule_onceperrow, st.rule_shared, aggregates.rule_aggclass],
+        'quick': [st.rule_onceperrow, st.rule_shared, aggregates.rule_aggclass, lib.rule_reduce],
         'thorough': [],
     },
     'C17': {
@@ -205,15 +225,19 @@ PROPS = {
     'C18': {
         'level': 'other',
         'explanation': (
-            "Decides ONE clause of the property: type casts (bool, int, decimal, str, date; 16 overloads) return the "
+            "Decides three structural clauses: (1) type casts (bool, int, decimal, str, date; 16 overloads) return the "
             "converted value or NULL and never raise - abstract interpretation of each cast body for every operand type "
             "it admits (untyped operands range over all announceable dtypes), with edge samples (NaN, Infinity, huge "
             "ints, malformed strings) for the conversion primitives; every exception a primitive can raise must be "
-            "caught by the enclosing try (R-CASTTOTAL). NOT decided (equalities over run-time values, outside static "
-            "reach): the calendar laws, account-name decomposition, string slicing/regex definitions and decimal "
-            "arithmetic; an off-by-one in such an expression has the same shape as the correct expression."),
+            "caught by the enclosing try (R-CASTTOTAL); (2) sibling agreement of the calendar cuts: date_trunc, date_part "
+            "and quarter() use the same (attribute, offset, period) for each unit (R-CALSIB); (3) the 26 functions that "
+            "the statement defines by a Python primitive (upper, substr, splitcomp, date_diff, root, ...) are, after "
+            "inlining locals, exactly that primitive applied to their arguments in order (R-DEFN; bodies that are not "
+            "straight-line are not judged). NOT decided (equalities over run-time values, outside static reach): the "
+            "calendar laws themselves (monotonicity, idempotence, inverse pairs, date_bin alignment), regex results, "
+            "decimal arithmetic; an off-by-one applied consistently to all siblings has the same shape as the correct code."),
         'assumptions': TRUSTED_ABSINT[:1],
-        'quick': [lib.rule_casttotal],
+        'quick': [lib.rule_casttotal, lib.rule_calsib, lib.rule_defn],
         'thorough': [],
     },
     'C20': {
